@@ -6,6 +6,7 @@ open BinNums
 open Datatypes
 open Tl1Model
 open TloModel
+open TloMigModel
 
 let bool_of s = (s = "1")
 let nat_int s = int_of_string s
@@ -83,8 +84,61 @@ let show_tydef (i : int) = function
       [Printf.sprintf "array %d %s" i ks; show_field ef]
   | TDict (kp, ef) -> [Printf.sprintf "dict %d %s" i (show_prim kp); show_field ef]
 
+(* C27: TL2 views (lib/tlo_lib.py: mig_view_lines) *)
+let opt_n s = if s = "-" then None else Some (n_of_dec s)
+let nat_s s = nat_of_int (int_of_string s)
+let load_view (path : string) : mdef list =
+  let ic = open_in path in
+  let lines = ref [] in
+  (try while true do lines := input_line ic :: !lines done with End_of_file -> ());
+  close_in ic;
+  let parse l =
+    match split_ws l with
+    | ["prim"; n] -> MPrim (bytes_of_hex n)
+    | ["alias"; t] -> MAlias (nat_s t)
+    | "struct" :: name :: uidx :: fn :: res :: nf :: rest ->
+        let rec fields k toks acc =
+          if k = 0 then List.rev acc else
+          (match toks with
+           | n :: bit :: isbit :: ty :: r ->
+               fields (k - 1) r ({ mf_attr = { fa_name = bytes_of_hex n; fa_bit = opt_n bit; fa_isbit = (isbit = "1") }; mf_ty = nat_s ty } :: acc)
+           | _ -> failwith "view: field") in
+        MStruct ({ sa_name = bytes_of_hex name; sa_uidx = n_of_dec uidx; sa_fun = opt_n fn },
+                 fields (int_of_string nf) rest [],
+                 (if res = "-" then None else Some (nat_s res)))
+    | "union" :: en :: mb :: nn :: rest ->
+        let k = int_of_string nn in
+        let names = List.filteri (fun i _ -> i < k) rest in
+        (match List.filteri (fun i _ -> i >= k) rest with
+         | _nv :: vs -> MUnion ({ ua_enum = (en = "1"); ua_maybe = (mb = "1"); ua_names = List.map bytes_of_hex names }, List.map nat_s vs)
+         | [] -> failwith "view: union")
+    | ["array"; fixed; e] -> MArray (opt_n fixed, nat_s e)
+    | ["dict"; e] -> MDict (nat_s e)
+    | _ -> failwith ("view: bad line " ^ l) in
+  List.map parse (List.rev !lines)
+
+let parse_pairs (toks : string list) : (nat * nat) list =
+  List.map (fun t -> match String.split_on_char ',' t with
+                     | [a; b] -> (nat_s a, nat_s b)
+                     | _ -> failwith "pair") toks
+
+let rec split_at_bar toks acc = match toks with
+  | "|" :: r -> (List.rev acc, r)
+  | t :: r -> split_at_bar r (t :: acc)
+  | [] -> (List.rev acc, [])
+
 let run toks =
   match toks with
+  (* equiv <viewA> <viewB> <a,b>* | <root a,b>* : the certified checker on a candidate correspondence *)
+  | "equiv" :: fa :: fb :: rest ->
+      let (ps, rs) = split_at_bar rest [] in
+      let a = load_view fa and b = load_view fb in
+      let phi = parse_pairs ps and roots = parse_pairs rs in
+      if not (roots_covered a b phi roots) then "ok false roots-not-covered"
+      else if tl2_equiv a b phi then "ok true"
+      else (match first_bad a b phi phi with
+            | Some (x, y) -> Printf.sprintf "ok false pair %d %d" (int_of_nat x) (int_of_nat y)
+            | None -> "ok false")
   | "tlo" :: version :: now :: n :: rest ->
       let (cs, _) = take_n (nat_int n) p_comb rest in
       (match tlo (n_of_dec version) (n_of_dec now) cs with
